@@ -57,6 +57,16 @@ fn err(k: &'static str) -> Alt {
     same(Pat::ErrKinds(vec![k]))
 }
 
+/// link text for a target seen from the link's directory ("." for the directory itself)
+pub fn rel_text(target: &str, dir: &str) -> String {
+    let r = ref_relative(target, dir);
+    if r.is_empty() {
+        ".".to_string()
+    } else {
+        r
+    }
+}
+
 pub fn listing_ok(want: &[String], got: &[String], sorted: bool) -> bool {
     let mut a = want.to_vec();
     let mut b = got.to_vec();
@@ -568,7 +578,7 @@ impl Model {
                     let tk = m.effective_kind(target);
                     m.t.nodes.insert(
                         dst.clone(),
-                        Node::Link { target: target.clone(), rel: ref_relative(target, &parent(&dst)), to_dir, mode: DEF_LINK, uid: DEF_UID, gid: DEF_GID },
+                        Node::Link { target: target.clone(), rel: rel_text(target, &parent(&dst)), to_dir, mode: DEF_LINK, uid: DEF_UID, gid: DEF_GID },
                     );
                     // a target inside the tree being created may or may not exist yet at that moment
                     let ck = if is_under(target, &bse) { None } else { Some(tk) };
@@ -650,35 +660,43 @@ impl Model {
         }
         let sk = self.kind(&s).unwrap();
         let mut alts: Expect = vec![];
-        let mut ok = true;
-        match self.kind(&bse) {
-            None => {},
-            Some(Kind::Dir) => {
-                let empty = self.t.children(&bse).is_empty();
-                alts.push(same(Pat::AnyErr));
-                if !(sk == Kind::Dir && empty) {
-                    ok = false;
+        // an existing destination is replaced the way rename(2) does
+        match (sk, self.kind(&bse)) {
+            (_, None) => {},
+            (Kind::Dir, Some(Kind::Dir)) => {
+                if !self.t.children(&bse).is_empty() {
+                    return vec![same(Pat::AnyErr)];
                 }
             },
-            Some(_) => {
-                // "replaces destination files"; a directory onto a file: Err or clean replace admitted
-                if sk == Kind::Dir {
-                    alts.push(same(Pat::AnyErr));
-                }
-            },
+            (Kind::Dir, Some(_)) => return vec![same(Pat::AnyErr)],
+            (_, Some(Kind::Dir)) => return vec![same(Pat::AnyErr)],
+            _ => {},
         }
-        if ok {
+        {
             let mut m = self.clone();
             if m.kind(&bse).is_some() {
                 m.t.nodes.remove(&bse);
                 m.meta.remove(&bse);
             }
             for k in self.t.subtree(&s) {
-                let n = m.t.nodes.remove(&k).unwrap();
+                let mut n = m.t.nodes.remove(&k).unwrap();
                 let nk = format!("{}{}", if bse == "/" { "" } else { &bse }, &k[s.len()..]);
-                if let Some(mut lm) = m.meta.remove(&k) {
-                    lm.moved = true;
-                    m.meta.insert(nk.clone(), lm);
+                let mut lm = m.meta.remove(&k);
+                if let Node::Link { target, rel, .. } = &mut n {
+                    // a relative link resolves from its new location
+                    if !rel.is_empty() && !rel.starts_with('/') {
+                        if let Ok(t) = abs_plain("/", &format!("{}/{}", parent(&nk), rel)) {
+                            if t != *target {
+                                *target = t;
+                                if let Some(x) = lm.as_mut() {
+                                    x.created_kind = None;
+                                }
+                            }
+                        }
+                    }
+                }
+                if let Some(x) = lm {
+                    m.meta.insert(nk.clone(), x);
                 }
                 m.t.nodes.insert(nk, n);
             }
@@ -798,15 +816,11 @@ impl Model {
                             return vec![same(Pat::AnyOk)];
                         }
                         let (alt, rel, dirish) = match n {
-                            Node::Link { target, to_dir, .. } => (target.clone(), ref_relative(target, &parent(&a)), *to_dir),
+                            Node::Link { target, to_dir, rel, .. } => (target.clone(), rel.clone(), *to_dir),
                             Node::Dir { .. } => (String::new(), String::new(), true),
                             Node::File { .. } => (String::new(), String::new(), false),
                         };
-                        if let Node::Link { target, .. } = n {
-                            if *target == parent(&a) {
-                                return vec![same(Pat::AnyOk)]; // navigation to the link's own directory: spelling covered by C10
-                            }
-                        }
+
                         let is_link = n.kind() == Kind::Link;
                         vec![same(Pat::Is(Out::Entry(EntryInfo {
                             path: a.clone(),
@@ -864,8 +878,7 @@ impl Model {
                     match self.kind(&a) {
                         // nothing to remove: Ok on both backends (pinned by their tests); below a
                         // non-directory the docs are silent, an error is admitted as well
-                        None if self.kind(&parent(&a)) == Some(Kind::Dir) || self.kind(&parent(&a)).is_none() => vec![same(Pat::Is(Out::Unit))],
-                        None => vec![same(Pat::Is(Out::Unit)), same(Pat::AnyErr)],
+                        None => vec![same(Pat::Is(Out::Unit))],
                         Some(Kind::Dir) if !self.t.children(&a).is_empty() => vec![err("Path::DirContainsFiles")],
                         Some(_) => {
                             let mut m = self.clone();
@@ -950,17 +963,18 @@ impl Model {
                 let tk = self.effective_kind(&ta);
                 m.t.nodes.insert(
                     la.clone(),
-                    Node::Link { target: ta.clone(), rel: ref_relative(&ta, &parent(&la)), to_dir: tk == Some(Kind::Dir), mode: DEF_LINK, uid: DEF_UID, gid: DEF_GID },
+                    Node::Link { target: ta.clone(), rel: rel_text(&ta, &parent(&la)), to_dir: tk == Some(Kind::Dir), mode: DEF_LINK, uid: DEF_UID, gid: DEF_GID },
                 );
                 m.meta.insert(la.clone(), LinkMeta { created_kind: Some(tk), moved: false });
                 vec![then(Pat::Is(Out::Path(la)), m)]
             },
             Readlink(p) => match self.query_node(p) {
-                Some((a, Node::Link { target, .. })) => {
-                    if self.meta.get(&a).map(|m| m.moved).unwrap_or(true) || *target == parent(&a) {
+                Some((a, Node::Link { rel, .. })) => {
+                    // the link text: the navigation computed at creation, kept verbatim by a move
+                    if self.meta.get(&a).map(|m| m.moved).unwrap_or(true) || rel.is_empty() {
                         vec![same(Pat::AnyOk)]
                     } else {
-                        vec![same(Pat::Is(Out::Path(ref_relative(target, &parent(&a)))))]
+                        vec![same(Pat::Is(Out::Path(rel.clone())))]
                     }
                 },
                 _ => vec![same(Pat::AnyErr)],
@@ -1007,7 +1021,7 @@ impl Model {
                         return Some(("link-recorded-kind".into(), format!("{:?} records dir={} want {}", k, bd, ad)));
                     }
                     let moved = self.meta.get(k).map(|m| m.moved).unwrap_or(true);
-                    if !moved && *a != parent(k) && ar != br {
+                    if !moved && ar != br {
                         return Some(("link-rel".into(), format!("{:?} rel {:?} want {:?}", k, br, ar)));
                     }
                 },
